@@ -29,7 +29,9 @@ def main():
     for c in P.get("calidx", []):
         tix = pd.DatetimeIndex([ts(k) for k in c["time"]])
         b, e = ts(c["b"]), ts(c["e"])
-        if c.get("as_str"):
+        if c.get("as_str") == "date":
+            b, e = (str(v.date()) if v == v.normalize() else str(v) for v in (b, e))
+        elif c.get("as_str"):
             b, e = str(b), str(e)
         try:
             if c.get("groups") is None:
@@ -60,10 +62,16 @@ def main():
         data = np.array(c["data"], dtype=c.get("dtype", "int16"))          # (y, x, t)
         da = xr.DataArray(data, dims=("y", "x", "time"), coords={"time": tix}, attrs={"nodata": c["nodata"]})
         kw = {}
+        def bound(k):
+            # a Timestamp, its full string, or - for an instant at midnight - the date-only string (which names that instant,
+            # not the whole day)
+            if c.get("as_str") == "date" and ts(k) == ts(k).normalize():
+                return str(ts(k).date())
+            return str(ts(k)) if c.get("as_str") else ts(k)
         if c["b"] is not None:
-            kw["calibration_begin"] = str(ts(c["b"])) if c.get("as_str") else ts(c["b"])
+            kw["calibration_begin"] = bound(c["b"])
         if c["e"] is not None:
-            kw["calibration_end"] = str(ts(c["e"])) if c.get("as_str") else ts(c["e"])
+            kw["calibration_end"] = bound(c["e"])
         rec = {}
 
         def call(d, groups=None, **k2):
